@@ -82,8 +82,10 @@ func c20r1(r *R) {
 		fn := r.method("ratelimit", "Conn", s.m)
 		uses := map[string]bool{}
 		eachInstr(fn, func(ins ssa.Instruction) {
-			if fa, ok := ins.(*ssa.FieldAddr); ok && structName(fa.X.Type()) == "ratelimit.Conn" {
-				uses[fieldName(fa.X.Type(), fa.Field)] = true
+			if fa, ok := ins.(*ssa.FieldAddr); ok {
+				if d := describe(fa); strings.HasPrefix(d, "$0.") { // fields of the Conn, also when grouped into a nested struct
+					uses[strings.TrimPrefix(d, "$0.")] = true
+				}
 			}
 		})
 		r.check(uses[s.lim] && !uses[s.other], "ratelimit.Conn."+s.m+"#limiter", fn.Pos(), s.m+" consults "+s.lim+" only", fmt.Sprintf("%s consults %v", s.m, uses))
@@ -194,7 +196,7 @@ func c20r3(r *R) {
 	for _, m := range []string{"Read", "Write"} {
 		fn := r.method("ratelimit", "Conn", m)
 		for _, c := range calls(fn, nameIs("(*golang.org/x/time/rate.Limiter).WaitN")) {
-			av := c.Common().Args[1]
+			av := refArgs(c.Common())[1]
 			ctx := describe(av)
 			okCtx := ctx == "context.Background()"
 			if u, ok := av.(*ssa.UnOp); ok {
@@ -244,7 +246,7 @@ func c20r4(r *R) {
 			return
 		}
 		// the config argument is the zero value
-		cfg := c.Common().Args[2]
+		cfg := refArgs(c.Common())[2]
 		zero := false
 		switch x := cfg.(type) {
 		case *ssa.Const:
